@@ -1,3 +1,5 @@
+#[cfg(feature = "verif")]
+use crate::verif::std_shim as std;
 use std::net::{Shutdown, TcpListener, TcpStream};
 use std::thread::JoinHandle;
 
